@@ -116,7 +116,7 @@ def one(m):
                     return m, "OK", f"{pid} analysis-error (idiom not recognised)"
             return m, "MISSED", "; ".join(f"{pid} rc={rc}" for pid, rc, out in results)
         else:
-            bad = [(pid, rc, out) for pid, rc, out in results if rc != 0]
+            bad = [(pid, rc, out) for pid, rc, out in results if rc != 0 and not (rc == 2 and pid in m.get("tolerate_exit2", []))]
             if bad:
                 return m, "FALSE-ALARM" if any(rc == 1 for _, rc, _ in bad) else "BRITTLE", "; ".join(f"{pid} rc={rc} " + " | ".join(l for l in out.splitlines() if l.startswith(("VIOLATION", "ANALYSIS", "  rule")))[:300] for pid, rc, out in bad)
             return m, "OK", "silent"
@@ -144,7 +144,9 @@ def main():
             if "patch.diff" in files and "meta.json" in files:
                 meta = json.load(open(os.path.join(root, "meta.json")))
                 props = meta.get("caught_by") or [meta["property"]]
-                ms.append({"id": "seed:" + os.path.relpath(root, sd), "props": props, "patch": os.path.join(root, "patch.diff"), "kind": meta.get("kind_expected", "silent" if meta.get("kind") == "refactor" else ("fire" if meta.get("expected_exit", 1) == 1 else "unrecognised")), "rule": meta.get("rule")})
+                if meta.get("checks") == "all":
+                    props = [f"C{i:02d}" for i in range(1, 21)]
+                ms.append({"id": "seed:" + os.path.relpath(root, sd), "props": props, "patch": os.path.join(root, "patch.diff"), "kind": meta.get("kind_expected", "silent" if meta.get("kind") == "refactor" else ("fire" if meta.get("expected_exit", 1) == 1 else "unrecognised")), "rule": meta.get("rule"), "tolerate_exit2": meta.get("tolerate_exit2", [])})
     if a.only:
         ms = [m for m in ms if a.only in m["props"]]
     if a.id:
